@@ -16,6 +16,7 @@ THEOREMS = [
     'AiutiVerif.Gather.C20_exact_in_input_order',
     'AiutiVerif.Gather.C20_independent_of_timing',
     'AiutiVerif.Gather.C20_raise_first',
+    'AiutiVerif.Gather.C20_returned_not_reported',
 ]
 ASSUMPTIONS = [
     'asyncio.gather(*aws, return_exceptions=True) runs every child to completion, cancels nothing and '
@@ -55,6 +56,7 @@ RAISABLE = [2, 3, 4, 5, 6]       # class ids an awaitable may raise (6: it ends 
 # what `only` may be: one of the classes, or a tuple of classes (isinstance accepts both), the empty tuple included
 ONLY = CLASSES + [(Base, BOnly), (Other, asyncio.CancelledError), (Sub, Exception), ()]
 NCLS = len(ONLY)
+RETURNED = 100                   # outcome code 100 + c: returns (does not raise) an instance of class c
 SUBTAB = ';'.join(','.join('1' if issubclass(c, d) else '0' for d in ONLY) for c in CLASSES)
 
 
@@ -69,6 +71,12 @@ def run_impl(case, which):
             await asyncio.sleep(delay * TICK)
         finally:
             done.append(i)
+        if cls is not None and cls >= RETURNED:
+            # the awaitable finishes normally; its *result* happens to be an exception object (a worker that hands
+            # back the error it dealt with): nothing was raised, nothing is to be reported
+            e = CLASSES[cls - RETURNED](i)
+            e.idx = i
+            return e
         if cls is not None:
             e = CLASSES[cls](i)
             e.idx = i
@@ -111,7 +119,7 @@ def run_impl(case, which):
 
 
 def model_line(case):
-    aws = ';'.join(f"{d}:{'-' if c is None else c}" for d, c, _ in case['aws'])
+    aws = ';'.join(f"{d}:{'-' if c is None else 'r%d' % (c - RETURNED) if c >= RETURNED else c}" for d, c, _ in case['aws'])
     return f"gather only={case['only']} sub={SUBTAB} aws={aws}"
 
 
@@ -125,7 +133,8 @@ def parse_model(ans):
 
 def spec(case):
     only = ONLY[case['only']]
-    return [(i, c) for i, (d, c, _) in enumerate(case['aws']) if c is not None and issubclass(CLASSES[c], only)]
+    return [(i, c) for i, (d, c, _) in enumerate(case['aws'])
+            if c is not None and c < RETURNED and issubclass(CLASSES[c], only)]
 
 
 def norm(l):
@@ -146,7 +155,7 @@ def canon_done(case, done):
 
 def gen_cases(ctx):
     N = 3 if ctx.quick else 4
-    outcomes = [None] + RAISABLE
+    outcomes = [None] + RAISABLE + [RETURNED + 3, RETURNED + 5]
     for n in range(0, N + 1):
         for outs in itertools.product(outcomes, repeat=n):
             for perm in itertools.permutations(range(n)):
